@@ -3,7 +3,10 @@
 import json, os, subprocess, sys
 ROOT = os.path.dirname(os.path.dirname(os.path.abspath(__file__)))
 rc = 0
+COQ_DIR = os.environ.get("VERIF_COQ_DIR")        # a run against another checkout works in its own copy of coq/
 for cfg, out in json.load(open(os.path.join(ROOT, "translate", "targets.json"))):
+    if COQ_DIR and out.startswith("coq/"):
+        out = os.path.join(COQ_DIR, out[len("coq/"):])
     r = subprocess.run([sys.executable, os.path.join(ROOT, "translate", "cxx2gallina.py"), os.path.join(ROOT, cfg), os.path.join(ROOT, out)],
                        capture_output=True, text=True)
     print(out, r.stdout.strip(), r.stderr.strip()[-300:])
